@@ -105,9 +105,15 @@ impl Gen {
                 // evaluated first, so the subscript is kept free of calls (no side effect the right-hand side
                 // could observe)
                 let pous = std::mem::replace(&mut self.pous, false);
-                let i = self.expr("INT", 1);
+                let mut i = self.expr("INT", 1);
                 self.pous = pous;
-                json!({"k":"assignidx","n":"arr","i":i,"e":self.expr("INT", 2)})
+                let e = self.expr("INT", 2);
+                if has_call(&e) {
+                    // ... and a call on the right-hand side may write (VAR_IN_OUT) what the subscript reads, or
+                    // fault in competition with it: then the subscript is a literal
+                    i = json!({"k": "lit", "t": "INT", "v": self.rng.gen_range(-1..5)});
+                }
+                json!({"k":"assignidx","n":"arr","i":i,"e":e})
             }
             5 => json!({"k":"if","c":self.expr("BOOL", 2),"t":self.block(d-1, in_loop),"e": if self.rng.gen_bool(0.5) { self.block(d-1, in_loop) } else { vec![] }}),
             6 => { let st = self.pick(&["SINT", "INT", "DINT", "USINT", "UINT"]); let nb = self.rng.gen_range(1..=3); let mut br = Vec::new(); let mut base = if lo(st) < 0 { self.rng.gen_range(-3..3) } else { self.rng.gen_range(0..3) };
@@ -123,6 +129,13 @@ impl Gen {
                    json!({"k":"while","c":{"k":"bin","op":"lt","l":{"k":"var","n":"uint2","t":"UINT"},"r":{"k":"lit","t":"UINT","v":lim}},"body":b}) }
             _ => if in_loop { if self.rng.gen_bool(0.5) { json!({"k":"exit"}) } else { json!({"k":"if","c":self.expr("BOOL", 1),"t":[{"k":"exit"}],"e":[]}) } } else { let t = self.pick(&TYPES); json!({"k":"assign","n":format!("{}1", t.to_lowercase()),"e":self.expr(t, 3)}) },
         }
+    }
+}
+fn has_call(e: &J) -> bool {
+    match e {
+        J::Object(m) => m.get("k").map_or(false, |k| k == "call") || m.values().any(has_call),
+        J::Array(a) => a.iter().any(has_call),
+        _ => false,
     }
 }
 fn lit_src(t: &str, v: i64, typed: bool) -> String {
